@@ -6,3 +6,4 @@ pub mod ast;
 pub mod case;
 pub mod prog;
 pub mod refi;
+pub mod nearmiss;
